@@ -456,7 +456,7 @@ func genC05Filter(c *ctx) {
 				b, _ := hex.DecodeString(it[1:])
 				if logRe.Match(b) {
 					b = logRe.ReplaceAll(b, []byte("LOG"))
-					it = "t" + hx(b)
+					it = it[:1] + hx(b)
 				}
 			}
 			out[i] = it
